@@ -711,6 +711,14 @@ impl Transport {
         let exchange = self
             .rx
             .with(|packet| {
+                if packet.buf.is_empty() {
+                    // No message is waiting. The header left over from the last message must not
+                    // be looked at: the session lookup below would refresh the `last_use` stamp
+                    // of that message's session on every poll of an idle responder and keep an
+                    // idle session from ever becoming the eviction candidate.
+                    return None;
+                }
+
                 matter.with_state(|state| {
                     let session = state
                         .sessions
